@@ -471,6 +471,11 @@ class Facts(dict):
             v = self._truth(t.operand, env)
             return None if v is None else (not v)
         if isinstance(t, ast.BoolOp):
+            # De Morgan: the path may carry the dual compound (`if a is None or b is None: return` decides `a is not None and b is not None`)
+            dual = ast.BoolOp(op=ast.Or() if isinstance(t.op, ast.And) else ast.And(), values=[ast.UnaryOp(op=ast.Not(), operand=v) for v in t.values])
+            dv = self.get(cond_str(ast.fix_missing_locations(dual), env))
+            if dv is not None:
+                return not dv
             vals = [self._truth(v, env) for v in t.values]
             if isinstance(t.op, ast.And):
                 if all(v is True for v in vals):
